@@ -402,6 +402,11 @@ pub const REF_VALUES_UNUSABLE: &[&str] = &[
     "184467440737095516150",
     "340282366920938463463374607431768211456",
     "00000000000000000000000000000000000000000000000001x",
+    // digits followed by a type suffix inside an expression: not a literal (round-10 seed C13)
+    "2u8 * shard",
+    "4u32.pow(n)",
+    "1usize + k",
+    "3u64 << 2",
 ];
 
 fn kv_strategy() -> BoxedStrategy<Kv>
@@ -474,7 +479,13 @@ pub fn directive_preamble() -> BoxedStrategy<Preamble>
     let kind = prop_oneof![Just(DirKind::Ignore), Just(DirKind::NoKvp)];
     let ws = select(&["", " ", "  ", "\t"][..]).prop_map(|s| s.to_string());
     let indent = select(&["    ", "", "\t", "        "][..]).prop_map(|s| s.to_string());
-    let blank = select(&["", " ", "\t", "    "][..]).prop_map(|s| s.to_string());
+    // one blank line in 25 is a very long whitespace-only line (> 4 KiB, > 8 KiB): the directive still is on the
+    // nearest non-blank line (round-10 seed C14: a bounded backwards search window)
+    let blank = prop_oneof![
+        24 => select(&["", " ", "\t", "    "][..]).prop_map(|s| s.to_string()),
+        1 => prop_oneof![Just(4090usize), Just(4097), Just(4200), Just(8200), Just(16500)]
+            .prop_flat_map(|n| prop_oneof![Just(" ".repeat(n)), Just("\t".repeat(n))]),
+    ];
     let code = select(&["let z = 1;", "foo();", "}", "x += 1;", "bar(\"s\");"][..]).prop_map(|s| s.to_string());
     let other = select(
         &[
